@@ -455,13 +455,17 @@ static int notify_fetching_peer(const struct element *e, const struct fetch *f,
 	if (unlikely(fetch_id == NULL)) {
 		goto error;
 	}
-	cJSON_AddItemToObject(root, "method", fetch_id);
+	if (unlikely(!add_item_to_object(root, "method", fetch_id))) {
+		goto error;
+	}
 
 	cJSON *param = cJSON_CreateObject();
 	if (unlikely(param == NULL)) {
 		goto error;
 	}
-	cJSON_AddItemToObject(root, "params", param);
+	if (unlikely(!add_item_to_object(root, "params", param))) {
+		goto error;
+	}
 
 	if (element_is_fetch_only(e)) {
 		cJSON_AddTrueToObject(param, "fetchOnly");
@@ -471,20 +475,26 @@ static int notify_fetching_peer(const struct element *e, const struct fetch *f,
 	if (unlikely(path == NULL)) {
 		goto error;
 	}
-	cJSON_AddItemToObject(param, "path", path);
+	if (unlikely(!add_item_to_object(param, "path", path))) {
+		goto error;
+	}
 
 	cJSON *event = cJSON_CreateString(event_name);
 	if (unlikely(event == NULL)) {
 		goto error;
 	}
-	cJSON_AddItemToObject(param, "event", event);
+	if (unlikely(!add_item_to_object(param, "event", event))) {
+		goto error;
+	}
 
 	if (e->value != NULL) {
 		cJSON *value = cJSON_Duplicate(e->value, 1);
 		if (unlikely(value == NULL)) {
 			goto error;
 		}
-		cJSON_AddItemToObject(param, "value", value);
+		if (unlikely(!add_item_to_object(param, "value", value))) {
+			goto error;
+		}
 	}
 
 	char *rendered_message = cJSON_PrintUnformatted(root);
@@ -547,7 +557,11 @@ static int get_element(const struct peer *p, const struct cJSON *request, const 
 				*response = create_error_response_from_request(p, request, INTERNAL_ERROR, "reason", "could not allocate memory for path object");
 				return -1;
 			}
-			cJSON_AddItemToObject(root, "path", path);
+			if (unlikely(!add_item_to_object(root, "path", path))) {
+				cJSON_Delete(root);
+				*response = create_error_response_from_request(p, request, INTERNAL_ERROR, "reason", "could not allocate memory for path object");
+				return -1;
+			}
 
 			cJSON *value = cJSON_Duplicate(e->value, 1);
 			if (unlikely(value == NULL)) {
@@ -556,7 +570,11 @@ static int get_element(const struct peer *p, const struct cJSON *request, const 
 				return -1;
 			}
 
-			cJSON_AddItemToObject(root, "value", value);
+			if (unlikely(!add_item_to_object(root, "value", value))) {
+				cJSON_Delete(root);
+				*response = create_error_response_from_request(p, request, INTERNAL_ERROR, "reason", "could not allocate memory for value");
+				return -1;
+			}
 
 			cJSON_AddItemToArray(states, root);
 		}
